@@ -604,7 +604,71 @@ def rule_refspec(run):
     c08.rule_refspec_reads(run)   # the index of an assignment target is READ at the access; flagged otherwise its capture is removed
 
 
-RULES = [rule_chain, rule_pushed, rule_alias, rule_index_capture, rule_if_merge, rule_writeback, rule_with_exit, rule_std_assignable, rule_refspec]
+def rule_all_open_blocks(run):
+    run.begin(
+        "C03.blocks",
+        "a statement is lowered into EVERY open block (every control-flow path that reaches it): the loops "
+        "`for block in open_blocks: block.append(..)` of the generator skip no block - no continue/break, no condition that "
+        "depends on the block",
+        floor=15,
+    )
+    gen = run.idx.mod(GEN)
+    f = gen.func("IrGenerator._apply_impl")
+    n = 0
+    for l in ast.walk(f.node):
+        if isinstance(l, ast.For) and dotted(l.iter) == "open_blocks" and isinstance(l.target, ast.Name):
+            b = l.target.id
+            apps = [c for c in ast.walk(l) if isinstance(c, ast.Call) and isinstance(c.func, ast.Attribute) and c.func.attr in ("append", "addfront") and dotted(c.func.value) == b]
+            if not apps:
+                continue
+            n += 1
+            derived = {b}
+            for a in ast.walk(l):
+                if isinstance(a, ast.Assign) and isinstance(a.targets[0], ast.Name) and any(isinstance(x, ast.Name) and x.id in derived for x in ast.walk(a.value)):
+                    derived.add(a.targets[0].id)
+            skips = [x for x in ast.walk(l) if isinstance(x, (ast.Continue, ast.Break))]
+            dep = []
+            for c in apps:
+                for anc in gen.parents.ancestors(c):
+                    if anc is l:
+                        break
+                    if isinstance(anc, ast.If) and any(isinstance(x, ast.Name) and x.id in derived for x in ast.walk(anc.test)):
+                        dep.append(src(anc.test)[:50])
+            ok = not skips and not dep
+            what = (dotted(apps[0].args[0].func) if apps[0].args and isinstance(apps[0].args[0], ast.Call) else src(apps[0])[:30]) or "?"
+            run.ob(ok, "_apply_impl", file=gen.rel, line=l.lineno, detail=f"{what}@{l.lineno - f.node.lineno}", expected="appended to every open block", found="ok" if ok else ("skips blocks: " + ("continue/break" if skips else f"if {dep}")), sample=False)
+    if n < 15:
+        raise AnalysisError(f"lowering loops over open_blocks not recognised ({n})")
+    run.end()
+
+
+def rule_select_default(run):
+    run.begin(
+        "C03.select",
+        "a selected assignment with several targets takes, for target nr, branch nr of every alternative AND of the "
+        "default (the default is converted per target: a Full/Null default has the width of ITS target)",
+        floor=2,
+    )
+    gen = run.idx.mod(GEN)
+    f = gen.func("IrGenerator._apply_impl")
+    br = ot.find_branch(f.node, ot.isinstance_test("inp", "out.SelectWith"))
+    if br is None:
+        raise AnalysisError("anchor vanished: out.SelectWith branch")
+    loops = [l for l in ast.walk(br) if isinstance(l, ast.For) and isinstance(l.iter, ast.Call) and dotted(l.iter.func) == "enumerate" and ".redirects" in src(l.iter)]
+    if len(loops) != 1 or not isinstance(loops[0].target, ast.Tuple):
+        raise AnalysisError("out.SelectWith: loop over the redirects not recognised")
+    nr = loops[0].target.elts[0].id
+    subs = [x for x in ast.walk(br) if isinstance(x, ast.Subscript) and src(x.value).endswith(".redirects")]
+    if len(subs) < 2:
+        raise AnalysisError("out.SelectWith: redirect selections not recognised")
+    for k, x in enumerate(subs):
+        inside = any(y is x for y in ast.walk(loops[0]))
+        ok = inside and dotted(x.slice) == nr
+        run.ob(ok, "_apply_impl[out.SelectWith]", file=gen.rel, line=x.lineno, detail=f"{src(x.value)[:40]}#{k}", expected=f"{src(x.value)}[{nr}] inside the per-target loop", found=src(x)[:60] + ("" if inside else " (outside the loop)"))
+    run.end()
+
+
+RULES = [rule_chain, rule_pushed, rule_alias, rule_index_capture, rule_if_merge, rule_writeback, rule_with_exit, rule_std_assignable, rule_refspec, rule_all_open_blocks, rule_select_default]
 LEVEL = "other"
 EXPLANATION = (
     "Table/shape analysis of the assignment pipeline for all programs at once: the nine hand-written stages that carry "
